@@ -38,13 +38,16 @@ ASSUMPTIONS = [
     "build_tree_as_polyline is only compared with the parent table on meshes without a 'barycenter' attribute",
 ]
 BOUNDS = {
-    "quick": "GRAPH(n<=5) all 1099 graphs, SURF tri+quad n<=4 (all 88) and n=5 with <=5 faces (2612) + all 410 triangle "
-             "complexes on 5 vertices, TET(n<=5) 27, holey 3x3 grids tri/quad/mixed (139); exclusion sets of size <=2 "
-             "(<=1 for holey grids); every weight vector in {1,2}^E for graphs with E<=5 edges; every root; every randint answer",
-    "thorough": "same families + TET(6) classes (16), SURF(6) triangle classes (28), zoo (octahedron, cube, tetrahedron, "
-                "Csaszar torus, prisms/antiprisms 3..4, grids 2x2..3x4 in 4 modes, 4x4 holey grids with <=2 faces removed) ; "
-                "exclusion sets of size <=3 (<=2 for holey 3x3 / 6-vertex classes / zoo, <=1 for 4x4 holey); every weight vector in "
-                "{1,2,3}^E for graphs with E<=5 edges and n<=4 all graphs",
+    "quick": "GRAPH(n<=5): all 1099 labelled graphs as polylines; SURF: all tri+quad complexes on 3 and 4 vertices (66), all 410 "
+             "triangle complexes on 5 vertices, all 2222 tri+quad complexes with a quad on 5 vertices and <=5 faces; TET(n<=5): 27; "
+             "holey 3x3 grids tri/quad/mixed: 139; 6 odd specimens (unused vertices, hexahedral grids); every root; exclusion sets "
+             "= every subset of ids of size <=2 (<=1 for the 5-vertex quad complexes, holey grids, odd specimens) + 2 sets with an "
+             "absent id; avoid_boundary both; 9 weight choices + every weight vector in {1,2}^E for graphs with E<=5; every "
+             "answer of randint; BFS and DFS traversal",
+    "thorough": "same families + TET(6) classes (16), SURF(6) triangle classes (28), zoo (octahedron, cube, tetrahedron, Csaszar "
+                "torus, prisms/antiprisms 3..4, grids 2x2..3x4 in 4 modes: 32), 4x4 holey grids with <=2 faces removed (74); "
+                "exclusion sets of size <=3 (<=2 for zoo, 4x4 holey grids, odd specimens); every weight vector in {1,2,3}^E for "
+                "graphs with E<=5 edges and for all graphs on <=4 vertices",
 }
 
 TREEMODS = ("edge_sp", "face_sp", "cell_sp")
@@ -82,7 +85,7 @@ def _families(tier):
         for mask, pts, faces in F.holey_grids(3, 3, mode):
             holey.append({"k": "sf", "p": [list(p) for p in pts], "n": len(pts), "el": [list(f) for f in faces],
                           "tag": f"holey3x3:{mode}:{mask}"})
-    fams.append(("holey3", 2 if thorough else 1, holey))
+    fams.append(("holey3", 3 if thorough else 1, holey))
     lat = [list(q) for q in F.sphere_lattice_points(9)]
     mom = [list(q) for q in F.moment_curve(6)]
 
@@ -102,9 +105,9 @@ def _families(tier):
     fams.append(("odd", 2 if thorough else 1, odd))
     if thorough:
         t6 = [{"k": "vol", "p": "mom", "n": 6, "el": [list(c) for c in cl]} for cl in F.tet6_classes()]
-        fams.append(("tet6", 2, t6))
+        fams.append(("tet6", 3, t6))
         s6 = [{"k": "sf", "p": "lat", "n": 6, "el": [list(f) for f in fl]} for fl in F.surf6_classes()]
-        fams.append(("surf6", 2, s6))
+        fams.append(("surf6", 3, s6))
         zoo = []
         for name, (pts, faces) in (("octahedron", F.octahedron()), ("cube", F.cube_quads()),
                                    ("tetrahedron", F.tetrahedron_surface()), ("csaszar", F.csaszar_torus()),
@@ -122,18 +125,18 @@ def _families(tier):
         for mask, pts, faces in F.holey_grids(4, 4, "tri", 2):
             h4.append({"k": "sf", "p": [list(p) for p in pts], "n": len(pts), "el": [list(f) for f in faces],
                        "tag": f"holey4x4:tri:{mask}"})
-        fams.append(("holey4", 1, h4))
+        fams.append(("holey4", 2, h4))
     return fams
 
 
-BATCH = {"surf5q": 12, "odd": 1, "graph": 12, "surf": 6, "tet": 3, "holey3": 2, "tet6": 1, "surf6": 1, "zoo": 1, "holey4": 2}
+BATCH = {"surf5q": 12, "odd": 1, "graph": 12, "surf": 6, "tet": 3, "holey3": 2, "tet6": 1, "surf6": 1, "zoo": 1, "holey4": 1}
 
 
 def tasks(tier):
     out = []
     for name, x, specs in _families(tier):
         b = BATCH[name]
-        if tier == "thorough" and name in ("graph", "surf", "surf5q"):
+        if tier == "thorough" and name in ("graph", "surf", "surf5q", "holey3"):
             b = max(1, b // 3)
         for i in range(0, len(specs), b):
             out.append({"fam": name, "xmax": x, "tier": tier, "meshes": specs[i:i + b]})
@@ -612,6 +615,10 @@ def _check_mesh(spec, xmax, tier, fam, rep: Report):
             icls = "w=one" if wcls == "w=one" else "w=varying"
         else:
             icls = "any"
+        if sub.startswith("traverse."):
+            callee = "SpanningTree.traverse"       # one shared implementation in base.py
+        elif sub == "cover":
+            callee = "SpanningForest.traverse"
         rep.violation("C10." + res[0], callee, res[1], icls, dict(detail, **res[2], **mtag))
 
     # ---- A. breadth-first vertex trees
@@ -876,7 +883,7 @@ def run_task(task, rep: Report):
 # ------------------------------------------------------------------------------------------ guards
 PINNED = {
     "quick": {"graph": 1099, "surf": 476, "surf5q": 2222, "tet": 27, "holey3": 139, "odd": 6},
-    "thorough": {"graph": 1099, "surf": 476, "surf5q": 2222, "tet": 27, "holey3": 139, "odd": 6, "tet6": 16, "surf6": 28},
+    "thorough": {"graph": 1099, "surf": 476, "surf5q": 2222, "tet": 27, "holey3": 139, "odd": 6, "tet6": 16, "surf6": 28, "zoo": 32, "holey4": 74},
 }
 
 
